@@ -17,7 +17,8 @@ class Log:
         self.rc = r.rc
         self.err = r.err
         self.lines = r.json_lines()
-        self.done = bool(self.lines) and self.lines[-1].get("k") == "done"
+        # records may follow `done` (detach_clean at engine destruction)
+        self.done = any(l.get("k") == "done" for l in self.lines[-20:])
         self.wall_exceeded = r.wall_exceeded
         self.cpu_exceeded = r.cpu_exceeded
 
